@@ -149,3 +149,58 @@ Proof.
   intros s s' [<-|[<-|[]]] [<-|[<-|[]]]; reflexivity.
 Qed.
 Print Assumptions C13_machine_nonvacuous.
+
+(* ---- CFG-path statements ---------------------------------------------------------------------------
+   The structured program has one execution path per oracle (trip count of every loop instance,
+   outcome of every branch instance).  [scanb X U false trace = Some _] says: on that path, once X
+   has run, U does not run before a barrier — every path from X to U, including paths around
+   back-edges of any enclosing loop, crosses a barrier. *)
+From Snax Require Import Model.C13Paths Proofs.C13PathProofs.
+
+(* a structurally guarded pair (wherever X occurs, a barrier of the same block follows it before U,
+   before any nested construct and before the end of the block) is separated on EVERY path *)
+Theorem C13_guarded_path_safe :
+  forall X U prog, guardedl X U prog = true ->
+  forall o ctx, scanb X U false (rrunl o prog ctx) = Some false.
+Proof. exact guarded_path_safe. Qed.
+Print Assumptions C13_guarded_path_safe.
+
+(* path safety of all conflicting pairs makes every barrier-separated phase of the path free of
+   cross-core conflicts (the link to drf_phase) *)
+Theorem C13_paths_give_drf_phases :
+  forall tr,
+  (forall a b, In (Some a) tr -> In (Some b) tr -> o_core a <> o_core b ->
+               specific a = true -> specific b = true -> conflictb a b = true ->
+               scanb (opid a) (opid b) false tr <> None) ->
+  Forall (fun ph => phase_drfb (filter specific ph) = true) (split_phases [] tr).
+Proof. exact paths_give_drf_phases. Qed.
+Print Assumptions C13_paths_give_drf_phases.
+
+(* composed: a program all of whose conflicting op pairs are guarded has, on every path, only
+   conflict-free phases, and every interleaving of the cores inside the phases computes the memory
+   of the program order.  [all_guarded] is decidable; the check evaluates it on the real output of
+   the passes (after insert-sync-barrier and on the final IR) *)
+Theorem C13_all_guarded_phases_drf :
+  forall prog, all_guarded prog = true ->
+  forall o, Forall (fun ph => phase_drfb (filter specific ph) = true) (split_phases [] (rrunl o prog [])).
+Proof. exact all_guarded_phases_drf. Qed.
+Print Assumptions C13_all_guarded_phases_drf.
+
+Theorem C13_all_guarded_any_interleaving :
+  forall prog, all_guarded prog = true ->
+  forall o ss m,
+  Forall2 schedule_of (map (filter specific) (split_phases [] (rrunl o prog []))) ss ->
+  meq (exec (concat ss) m) (exec (concat (map (filter specific) (split_phases [] (rrunl o prog [])))) m).
+Proof. exact all_guarded_any_interleaving. Qed.
+Print Assumptions C13_all_guarded_any_interleaving.
+
+(* non-vacuity: the loop  copy -> b ; barrier ; generic b -> c ; barrier  (what the pass makes of
+   copy; generic in a loop) is guarded in both directions, the loop without the second barrier
+   is not and indeed has a racing path *)
+Example C13_paths_nonvacuous :
+  let good := [RFor 1 [RLeaf 2 1 false [10] [11]; RLeaf 3 (-1) true [] []; RLeaf 4 0 false [11] [12]; RLeaf 5 (-1) true [] []]] in
+  let bad := [RFor 1 [RLeaf 2 1 false [10] [11]; RLeaf 3 (-1) true [] []; RLeaf 4 0 false [11] [12]]] in
+  all_guarded good = true /\ all_guarded bad = false /\
+  scanb 4 2 false (rrunl (mkROracle (fun _ _ => 2%nat) (fun _ _ => true)) bad []) = None.
+Proof. cbv zeta. repeat split; vm_compute; reflexivity. Qed.
+Print Assumptions C13_paths_nonvacuous.
